@@ -10,7 +10,10 @@ always-true, `1`/`0` and isinstance tests; with (`__enter__`); try/except/finall
 without a raise; while/break; augmented assignment through `__add__` inside for loops; nested
 functions, closures, lambdas, default arguments; decorators that return the function;
 property/staticmethod/classmethod; `__getitem__`/`__call__`/`__iter__`/`__enter__`; single
-inheritance; tuple/list/dict literals, constant indexing, (nested) tuple unpacking.
+inheritance; tuple/list/dict literals, constant indexing, (nested) tuple unpacking; holder objects
+created by the constructor or by the (for H9: inherited) classmethod `H.mk(..)` and probed
+themselves (soundness only).  Class families with descriptor binding through inheritance are the
+business of gen/descbind.py (same probe convention, same runner).
 
 Values are instances of the tiny classes V0..V5 (typeshed is empty in this sandbox: no True/False/
 None, no builtin call results, no str/int methods).  Every probed expression is first assigned to a
@@ -571,8 +574,21 @@ class Prog:
             if h is None:
                 return self.assign(sc, ind)
             o = self.fresh('o')
-            self.emit(ind, '%s = %s(%s)' % (o, h, e))
+            if self.chance(0.3):
+                # alternate constructor: for H9 an inherited classmethod reached through the subclass
+                self.emit(ind, '%s = %s.mk(%s)' % (o, h, e))
+                self.features.add('holder-via-classmethod')
+            else:
+                self.emit(ind, '%s = %s(%s)' % (o, h, e))
             self.bind(sc, o, Var('O', x=x, prov=self.applied(self.holder_uses(h), pv)))
+            if self.chance(0.4) and not sc.has_params:
+                # the holder object itself is probed (soundness only: no exactness bookkeeping)
+                self.nprobe += 1
+                t = 't%d' % self.nprobe
+                self.emit(ind, '%s = %s' % (t, o))
+                self.emit(ind, t)
+                self.probe_info[len(self.lines)] = None
+                self.features.add('probe-holder-object')
         elif k == 'unpack':
             self.features.add('unpack')
             t, n, xs, pv = self.seq(sc)
